@@ -52,6 +52,19 @@ def windowslike_tables():
     return err, sig, af, sock, 0xffff
 
 
+def permuted_tables():
+    """A host that uses the familiar NAMES with other NUMBERS (as illumos or Linux/MIPS do for the socket kinds): Darwin's
+    names rotated over Darwin's numbers.  The constants of the errno / signal / socket modules (errno.EAGAIN,
+    signal.SIGUSR1, socket.SOCK_STREAM, socket.AF_INET6 ...) are set to match, see install()."""
+    err, sig, af, sock, sol = darwin_tables()
+
+    def rotate(table, by):
+        keys = sorted(table)
+        return {k: table[keys[(i + by) % len(keys)]] for i, k in enumerate(keys)}
+    sock = {2: 'SOCK_STREAM', 1: 'SOCK_DGRAM', 4: 'SOCK_RAW', 5: 'SOCK_RDM', 6: 'SOCK_SEQPACKET'}
+    return rotate(err, 7), rotate(sig, 3), rotate(af, 5), sock, 0x29
+
+
 ENV_READS = set()
 
 
@@ -241,7 +254,8 @@ def install(host):
     import click.testing  # noqa
     import construct, pygments, pygments.lexers, pygments.formatters, termcolor, click  # noqa
     err, sig, af, sock, sol = (darwin_tables() if host == 'darwin' else bsdlike_tables() if host == 'bsdlike' else
-                               windowslike_tables() if host == 'windowslike' else scrambled_tables())
+                               windowslike_tables() if host == 'windowslike' else permuted_tables() if host == 'permuted' else
+                               scrambled_tables())
     if host == 'windowslike':
         # LLP64: C long / unsigned long are 32 bits wide there (ctypes.c_long is ctypes.c_int on Windows)
         ctypes.c_long, ctypes.c_ulong = ctypes.c_int32, ctypes.c_uint32
@@ -251,6 +265,12 @@ def install(host):
         if name.startswith('E') and name[1:2].isupper():
             setattr(errno, name, code)      # e.g. errno.EFTYPE on the BSD-shaped hosts (names the real host lacks)
     signal.Signals = enum.IntEnum('Signals', {v: k for k, v in sig.items()})
+    # the modules' own constants follow the tables (code that reads socket.SOCK_STREAM or signal.SIGUSR1 instead of the
+    # enums sees the same host)
+    for mod, table, prefix in ((socket, af, 'AF_'), (socket, sock, 'SOCK_'), (signal, sig, 'SIG')):
+        for code, name in table.items():
+            if name.startswith(prefix) and name.isidentifier():
+                setattr(mod, name, code)
     socket.AddressFamily = enum.IntEnum('AddressFamily', {v: k for k, v in af.items()})
     socket.SocketKind = enum.IntEnum('SocketKind', {v: k for k, v in sock.items()})
     socket.SOL_SOCKET = sol
